@@ -26,4 +26,32 @@ example : parseUnit [109, 47, 115, 47, 107] = none := by decide      -- "m/s/k"
 example : parseUnit [109, 46, 46, 115] = none := by decide           -- "m..s"
 example : parseUnit [109, 48] = none := by decide                    -- "m0"
 
+-- products, quotients, powers from the operands.  Registry: category l -> type L, d -> type L, t -> type T
+-- s * m lists the second first; m * s the metre first (no earlier result takes part)
+example : (opQ ⟨[([108], [76]), ([116], [84])], []⟩ .mul
+      ⟨[⟨[116], [115], 1⟩], false, [116], [84], [115]⟩ ⟨[⟨[108], [109], 1⟩], false, [108], [76], [109]⟩).map
+        (fun q => (q.unit, q.category)) = .ok ([115, 46, 109], [116, 32, 42, 32, 108]) := by rfl
+example : (opQ ⟨[([108], [76]), ([116], [84])], []⟩ .mul
+      ⟨[⟨[108], [109], 1⟩], false, [108], [76], [109]⟩ ⟨[⟨[116], [115], 1⟩], false, [116], [84], [115]⟩).map
+        (fun q => (q.unit, q.category)) = .ok ([109, 46, 115], [108, 32, 42, 32, 116]) := by rfl
+-- (m/s) ** 4 = "m4/s4"; the hypotheses of `pow_unit_string` hold for m/s
+example : (qpow ⟨[([108], [76]), ([116], [84])], []⟩
+      ⟨[⟨[108], [109], 1⟩, ⟨[116], [115], -1⟩], true, [], [], [109, 47, 115]⟩ 4).map (·.unit)
+        = .ok [109, 52, 47, 115, 52] := by rfl
+example : matchOne ⟨[([108], [76]), ([116], [84])], []⟩ [] [⟨[108], [109], 1⟩, ⟨[116], [115], -1⟩]
+    = .ok ([([84], [115]), ([76], [109])], [⟨[108], [109], 1⟩, ⟨[116], [115], -1⟩]) := by rfl
+example : ∀ e ∈ [(⟨[108], [109], 1⟩ : Entry), ⟨[116], [115], -1⟩],
+    e.exp ≠ 0 ∧ unitTotal e.unit [⟨[108], [109], 1⟩, ⟨[116], [115], -1⟩] ≠ 0 := by decide
+-- q ** 1, q ** 0, q ** -2 are q itself (`range(exponent - 1)` is empty)
+example : qpow ⟨[([108], [76])], []⟩ ⟨[⟨[108], [109], 1⟩], false, [108], [76], [109]⟩ 0
+    = .ok ⟨[⟨[108], [109], 1⟩], false, [108], [76], [109]⟩ := by rfl
+-- two categories of one quantity type with different units: the first unit seen is kept (m.ft -> m2)
+example : (opQ ⟨[([108], [76]), ([100], [76])], []⟩ .mul
+      ⟨[⟨[108], [109], 1⟩], false, [108], [76], [109]⟩ ⟨[⟨[100], [102, 116], 1⟩], false, [100], [76], [102, 116]⟩).map
+        (fun q => (q.unit, q.entries)) = .ok ([109, 50], [⟨[108], [109], 1⟩, ⟨[100], [109], 1⟩]) := by rfl
+-- m / m (one category) cancels: the empty quantity
+example : (opQ ⟨[([108], [76])], []⟩ .div
+      ⟨[⟨[108], [109], 1⟩], false, [108], [76], [109]⟩ ⟨[⟨[108], [109], 1⟩], false, [108], [76], [109]⟩).map (·.entries)
+        = .ok [] := by rfl
+
 end Barril.Str
